@@ -44,8 +44,13 @@ static int nlive[MAXT];
 static int ready[MAXT];
 static int tcls[MAXT];
 static int use_macro;             /* tables are made with CSTL_HASH_INITIALIZER instead of cstl_hash_init */
-static int bigkeys;               /* keys are spread over all 64 bits (low bits still identify them) */
-static size_t KX(size_t a) { return bigkeys ? a | ((a * 0x9E3779B1u + 0x7F4A7C15u) << 32) : a; }            /* which embedded node the table object currently uses */
+/* 0: small keys; 1: keys spread over all 64 bits; 2: ALIASED keys: key numbers 2j and 2j+1 differ only by
+ * KALIAS = 2520 * 2^36, i.e. they agree in their low 36 bits (and in their low 16 and 32 bits) and fall into the
+ * same bucket for every bucket count that divides KALIAS (all counts up to 10, every power of two, ...): a key
+ * comparison or a stored key narrower than size_t confuses them */
+static int bigkeys;
+#define KALIAS ((size_t)2520 << 36)
+static size_t KX(size_t a) { return bigkeys == 2 ? (a >> 1) + (a & 1) * KALIAS : bigkeys ? a | ((a * 0x9E3779B1u + 0x7F4A7C15u) << 32) : a; }            /* which embedded node the table object currently uses */
 
 /* ---- model of the requested geometry (C19) ---- */
 struct geo { size_t n; int f; };                /* f: function id, NF = unlogged cstl_hash_mul */
@@ -817,10 +822,10 @@ static void run_closure(int ci)
     int n = build_alphabet(s, al);
     struct vex_result r;
     vrt_case_note("closure tables=%d keys=%d pool=%d buckets<=%d funcs=f%d,f%d alphabet=%d mode=%s%s%s",
-                  s->nt, s->nk, s->np, s->maxb, s->f0, s->f1, n, vrt_mode, (ci & 1) ? " initializer-macro" : "", ((ci >> 1) & 1) ? " 64-bit-keys" : "");
+                  s->nt, s->nk, s->np, s->maxb, s->f0, s->f1, n, vrt_mode, (ci & 1) ? " initializer-macro" : "", (ci >> 1) % 3 == 1 ? " 64-bit-keys" : (ci >> 1) % 3 == 2 ? " aliased-keys(differ only above bit 36)" : "");
     nprobe_per_table = mode == M_ENUM ? 7 : 1;
     use_macro = ci & 1;
-    bigkeys = (ci >> 1) & 1;
+    bigkeys = (ci >> 1) % 3;
     model.nprobes = mode == M_INCR ? 0 : nprobe_per_table * s->nt;
     resized_while_pending = 0;
     vex_closure(&model, SCOPE(s->nt, s->nk, s->np), al, n, s->max_states, 200, &r);
@@ -845,7 +850,7 @@ static void run_random(uint64_t idx)
     nops = under_memcheck() ? 600 : vrt_thorough ? 8000 : 2500;
     vrt_case_note("random tables=%d keys=%d pool=%d buckets<=%d ops=%d mode=%s", nt, nk, np, maxb, nops, vrt_mode);
     use_macro = idx & 1;
-    bigkeys = (idx >> 1) & 1;
+    bigkeys = (int)((idx >> 1) % 3);
     st_create(SCOPE(nt, nk, np));
     nprobe_per_table = mode == M_ENUM ? 7 : 1;
     for (i = 0; i < nops; i++) {
